@@ -637,6 +637,21 @@ func c09e(c *Ctx) {
 				ok = true
 			}
 		}
+		// ... between every two pieces: the separator is written exactly when something was
+		// written before (any other test — a length above one, a line comparison — glues some
+		// pieces together or splits others)
+		for _, w := range c.sitesOf(rs) {
+			if !(w.konst && w.format == "\n" && strings.HasPrefix(w.method, "Write")) {
+				continue
+			}
+			d := dropAtoms(c.PC(rs).At(w.call.Block()), func(a string) bool { return strings.Contains(a, "$0.ch") })
+			okG := len(d.cs) == 1 && len(d.cs[0]) == 1 && regexpMust(`^\+\(0 < \(\*strings\.Builder\)\.Len\(.*\)(@\d+)?\)$`).MatchString(d.cs[0][0])
+			if !okG && len(d.cs) == 1 && len(d.cs[0]) == 1 {
+				// a "not the first piece" flag: a phi that is false on entry and true round the loop
+				okG = regexpMust(`^[-+]phi\(`).MatchString(d.cs[0][0]) && strings.Contains(d.cs[0][0], "first")
+			}
+			c.Check(okG, "separator/lexer/between-every-two-pieces", c.W.Pos(w.call.Pos()), "the separator is written exactly when a piece was written before", "readString writes the piece separator under ["+pretty(d.String())+"], expected exactly when the builder is not empty (sb.Len() > 0): adjacent pieces would be glued together or split differently, and emitText makes one directive per separator")
+		}
 		c.Check(ok, "separator/lexer", c.W.FuncPos(rs), "adjacent string literals are joined with the line separator \\n", "lexer.readString no longer joins adjacent literals with \"\\n\" (emitText splits lines at \"\\n\")")
 	}
 	if ft := c.Fn("parser.FontConfig.FormatText"); ft != nil {
